@@ -357,11 +357,11 @@ impl Program {
                     match st {
                         Stmt::Let(x, t, e) => {
                             write!(s, "let mut v{}: {} = ", x, self.ty_cairo(t)).unwrap();
-                            self.expr(s, e, d);
+                            self.expr_top(s, e, d);
                             s.push_str(";\n");
                         }
                         Stmt::Expr(e) => {
-                            self.expr(s, e, d);
+                            self.expr_top(s, e, d);
                             s.push_str(";\n");
                         }
                     }
@@ -373,7 +373,7 @@ impl Program {
     }
     fn tail(&self, s: &mut String, e: &Expr, d: usize) {
         Self::ind(s, d);
-        self.expr(s, e, d);
+        self.expr_top(s, e, d);
         if matches!(e, Expr::Break(..) | Expr::Continue(..) | Expr::Return(..)) {
             s.push(';');
         }
@@ -391,7 +391,7 @@ impl Program {
             Ty::Int(i) => {
                 if z.is_negative() { format!("(-{}_{})", z.abs(), i.name()) } else { format!("{}_{}", z, i.name()) }
             }
-            Ty::Felt => format!("{}", z),
+            Ty::Felt => format!("{}_felt252", z),
             _ => panic!("literal of {:?}", t),
         }
     }
@@ -403,7 +403,24 @@ impl Program {
         }
     }
 
+    /// operand position: block-like expressions are parenthesised (the parser does not accept
+    /// `if {`, `if if`, `match match`, ... )
     pub fn expr(&self, s: &mut String, e: &Expr, d: usize) {
+        let blocky = matches!(
+            e,
+            Expr::If(..) | Expr::Block(..) | Expr::Match(..) | Expr::MatchInt(..) | Expr::Loop(..) | Expr::While(..)
+        ) || matches!(e, Expr::Proj(t, _, _) if !matches!(t, Ty::Struct(_)));
+        if blocky {
+            s.push('(');
+            self.expr_top(s, e, d);
+            s.push(')');
+        } else {
+            self.expr_top(s, e, d);
+        }
+    }
+
+    /// statement / tail / initialiser position
+    pub fn expr_top(&self, s: &mut String, e: &Expr, d: usize) {
         match e {
             Expr::Lit(t, z) => s.push_str(&self.lit(t, z)),
             Expr::Bool(b) => s.push_str(if *b { "true" } else { "false" }),
@@ -520,15 +537,15 @@ impl Program {
                 for (i, (x, body)) in arms.iter().enumerate() {
                     Self::ind(s, d + 1);
                     match t {
-                        Ty::Enum(k) => write!(s, "{}::V{}(v{})", self.enum_name(*k), i, x).unwrap(),
+                        Ty::Enum(k) => write!(s, "{}::V{}(mut v{})", self.enum_name(*k), i, x).unwrap(),
                         Ty::Opt(_) => {
                             if i == 0 {
-                                write!(s, "Option::Some(v{})", x).unwrap()
+                                write!(s, "Option::Some(mut v{})", x).unwrap()
                             } else {
                                 write!(s, "Option::None").unwrap()
                             }
                         }
-                        Ty::Res(..) => write!(s, "Result::{}(v{})", if i == 0 { "Ok" } else { "Err" }, x).unwrap(),
+                        Ty::Res(..) => write!(s, "Result::{}(mut v{})", if i == 0 { "Ok" } else { "Err" }, x).unwrap(),
                         _ => panic!("match on {:?}", t),
                     }
                     s.push_str(" => ");
@@ -682,20 +699,20 @@ impl Program {
                         match st {
                             Stmt::Let(x, t, e) => {
                                 write!(s, "let mut v{}: {} = ", x, self.ty_cairo(t)).unwrap();
-                                self.expr(s, e, d);
+                                self.expr_top(s, e, d);
                             }
-                            Stmt::Expr(e) => self.expr(s, e, d),
+                            Stmt::Expr(e) => self.expr_top(s, e, d),
                         }
                         s.push_str(";\n");
                     }
                 }
                 Self::ind(s, d);
-                self.expr(s, tail, d);
+                self.expr_top(s, tail, d);
                 s.push_str(";\n");
             }
             _ => {
                 Self::ind(s, d);
-                self.expr(s, e, d);
+                self.expr_top(s, e, d);
                 s.push_str(";\n");
             }
         }
